@@ -63,16 +63,27 @@ def call_real(seed, i, high, cache):
         return 'Timeout'
 
 
-def real_history(seed, high, reqs, scripted=None):
-    """run a request history on the real code with one shared cache; returns results, cache summary"""
+def real_history(seed, high, reqs, scripted=None, foreign=False):
+    """run a request history on the real code with one shared cache; returns results, cache summary.
+    `foreign`: before every request other callers use get_sub_seed too (cache-less, another master seed, a second cache) -
+    the derived seed must not depend on that either"""
     cache = {}
+    cache2 = {}
     res = []
     if scripted is not None:
         ScriptedRS.script = scripted
         orig = np.random.RandomState
         np.random.RandomState = ScriptedRS
     try:
-        for i in reqs:
+        for k, i in enumerate(reqs):
+            if foreign:
+                j = (3 * k + 1) % max(1, min(high, 7))
+                if k % 3 == 0:
+                    call_real(seed + 1, j, high, None)
+                elif k % 3 == 1:
+                    call_real(seed, j, high, cache2)
+                else:
+                    call_real(seed + 7, j, high, cache2 if k % 2 else None)
             res.append(call_real(seed, i, high, cache))
         # cache summary: seen set, and the position of the cached generator
         summ = None
@@ -80,7 +91,7 @@ def real_history(seed, high, reqs, scripted=None):
             seen = sorted(int(x) for x in cache['seen'])
             rs = cache['random_state']
             if scripted is not None:
-                pos = rs.pos
+                pos = getattr(rs, 'pos', None)      # (a generator that is not the scripted class: reported as a correspondence break)
             else:
                 pos = None
             summ = dict(seen=seen, pos=pos, state=rs.get_state() if scripted is None else None)
@@ -199,6 +210,8 @@ def compare(ctx, cases):
             if c['summ']['pos'] is not None:
                 if pos != c['summ']['pos']:
                     ctx.corr_break('cache.pos', c['case'], pos, c['summ']['pos'])
+            elif c['summ']['state'] is None:
+                ctx.corr_break('cache.generator', c['case'], 'a generator created for this cache', 'a generator of another class/origin')
             else:
                 rs = np.random.RandomState(0)
                 rs.set_state(c['summ']['state'])
@@ -207,6 +220,10 @@ def compare(ctx, cases):
                     ctx.corr_break('cache.pos', c['case'], c['stream'][pos:pos + 3], nxt)
         elif (c['summ'] is None) != (a['cache'] is None):
             ctx.corr_break('cache.presence', c['case'], a['cache'], c['summ'] and c['summ']['seen'])
+
+
+def hash_reqs(reqs):
+    return sum((k + 1) * (r + 2) for k, r in enumerate(reqs))
 
 
 def one_case(ctx, kind, seed, high, reqs, scripted=None, tag=''):
@@ -222,8 +239,10 @@ def one_case(ctx, kind, seed, high, reqs, scripted=None, tag=''):
         stream = stream_of(seed, high, n + 8)
     else:
         stream = scripted
-    case = dict(kind=kind, seed=seed, high=high, reqs=reqs, scripted=scripted, tag=tag)
-    res, summ, nocache = real_history(seed, high, reqs, scripted)
+    foreign = (hash_reqs(reqs) + seed) % 3 == 0 and scripted is None      # a third of the real-generator histories
+    case = dict(kind=kind, seed=seed, high=high, reqs=reqs, scripted=scripted, tag=tag, foreign_lookups=foreign)
+    res, summ, nocache = real_history(seed, high, reqs, scripted, foreign=foreign)
+    ctx.count('foreign_lookups', foreign)
     ctx.case(case, nontrivial(reqs, stream[:need + 2]))
     ctx.count('stream', kind)
     ctx.count('history_len', len(reqs))
